@@ -183,6 +183,30 @@ def expected_state(name, nterm, cterm, neutraln=False, neutralc=False, ss=False)
     )  # fmt: skip
 
 
+NA_TEMPLATE = {"A": "RA", "C": "RC", "G": "RG", "U": "RU", "T": "DT"}
+
+
+def expected_na(letter, dna, five, three):
+    """Expected final state of a nucleotide: dict(name, atoms, tmpl, bonds).
+
+    RNA: template R<letter>; DNA: the D<letter> patch on it (DT is its own template); the 5' end
+    loses its phosphate and gains H5T, the 3' end gains H3T (patches <name>5 / <name>3)."""
+    base = NA_TEMPLATE[letter]
+    patches = []
+    name = base
+    if dna and letter != "T":
+        name = "D" + letter
+        patches.append(name)
+    if five:
+        patches.append(name + "5")
+    if three:
+        patches.append(name + "3")
+    tmpl, bonds = compose(base, [p for p in patches if p in PATCH])
+    missing_patch = [p for p in patches if p not in PATCH]
+    return dict(name=name + ("5" if five else "") + ("3" if three else ""), atoms=set(tmpl), tmpl=tmpl, bonds=bonds,
+                missing_patch=missing_patch)
+
+
 def alt_to_canonical(resname):
     """Old/alternative atom names -> canonical for a residue (incl. patches)."""
     base = BASE.get(resname, resname)
